@@ -1881,6 +1881,16 @@ impl Rig {
                 let mut causes: Vec<&'static str> = vec![];
 
 
+                // Block::create's leave-out branch: dead unless a transaction was injected past the intake
+                {
+                    let missing = pool_txs.iter().filter(|p| !fin.transactions.iter().any(|t| t.signature == p.signature)).count();
+                    if missing > 0 && self.injected_aged.is_none() {
+                        self.stat("create-left-out:without-injection");
+                        findings.push((format!("Block::create left out {} pooled transaction(s) although nothing was injected past the intake (tip {})", missing, tip.id), None));
+                    } else {
+                        self.stat(if missing > 0 { "create-left-out:injected-only" } else { "create-left-out:nothing" });
+                    }
+                }
                 if let Some(sig) = self.injected_aged {
                     let carried = fin.transactions.iter().any(|t| t.signature == sig);
                     self.stat(&format!("injected-aged-spend:{}", if carried { "carried" } else { "left-out" }));
